@@ -18,7 +18,7 @@
    internals of the dependency crates (their panic behaviour is part of the oracles). *)
 From MelVerif Require Import STF.Model VM.Exec STF.Proofs.Pool STF.Proofs.Counts STF.Proofs.Total STF.Proofs.Supply
   STF.Proofs.HashFacts STF.Proofs.NoPanicBatch STF.Proofs.Witness STF.Proofs.SealLift STF.Proofs.SealInv STF.Proofs.SealCounts
-  STF.Proofs.SealCoins STF.Proofs.SealSupply STF.Proofs.History STF.Proofs.SealTotal STF.Proofs.Declared STF.Proofs.BoundsHistory STF.Proofs.ApplyBlock STF.Proofs.Witness5 STF.Proofs.Witness6.
+  STF.Proofs.SealCoins STF.Proofs.SealSupply STF.Proofs.History STF.Proofs.SealTotal STF.Proofs.Declared STF.Proofs.BoundsHistory STF.Proofs.ApplyBlock STF.Proofs.PoolHistory STF.Proofs.Born STF.Proofs.Witness5 STF.Proofs.Witness6 STF.Proofs.Witness4 STF.Proofs.Witness8.
 Open Scope N_scope.
 
 Theorem C09_covenants_terminate : forall O prog hp, run O prog hp <> OutOfFuel.
@@ -226,3 +226,38 @@ Print Assumptions C09_apply_block_asserts_two_pools.
 Theorem C09_pool_count_unchanged_by_next : forall s hdr, pool_count_ok (next_unsealed s hdr) = pool_count_ok s.
 Proof. exact pool_count_next. Qed.
 Print Assumptions C09_pool_count_unchanged_by_next.
+
+(* ---- sealing is total from the beginning of a chain.  [BornBacked K SO k s] (Properties/C16.v): pool k is unborn
+   (absent, fewer than 10^9 of its tokens exist - a genesis state) or live and backed; it holds for the three
+   built-in pools in every state of every history from such a state.  So the C16 premises of the theorems above
+   are discharged, and what remains are the hash-oracle facts of the steps and the no-overflow bounds. *)
+Theorem C09_builtins_step_def : forall K SO s o,
+  builtins_step_ok K SO s o <-> forall k, builtin k -> pool_bounds_step_ok K SO k s o.
+Proof. exact builtins_step_ok_def. Qed.
+Print Assumptions C09_builtins_step_def.
+Theorem C09_seal_total_from_genesis : forall K, NoDup (map poolkey_code K) -> forall SO, In MS K /\ In ME K /\ In ES K ->
+  (forall k1 k2, In k1 K -> In k2 K -> LDk SO k1 = LDk SO k2 -> k1 = k2) ->
+  forall ops s0,
+  Good2 s0 -> (forall k, builtin k -> BornBacked K SO k s0) -> hist_all SO (builtins_step_ok K SO) s0 ops ->
+  let s := fold_left (hstep SO) ops s0 in
+  legacy_net s && (s_height s <? 978392) = false ->
+  (forall t k1, In t (sorted_txs s) -> tx_pool t = Some k1 -> In k1 K /\ LDk SO k1 <> fst k1 /\ LDk SO k1 <> snd k1) ->
+  nsum (map (fun t => cd_value (out0 t)) (sorted_txs s)) < U128 ->
+  nsum (map (fun t => cd_value (out1 t)) (sorted_txs s)) < U128 ->
+  (forall s2, process_swaps (create_builtins s) = Ok s2 ->
+     forall k1 p'' m, In k1 K ->
+       pool_deposit (pool_at s2 k1)
+         (nsum (map (fun t => cd_value (out0 t)) (txs_for_pool (List.filter (is_deposit_request s2) (sorted_txs s2)) k1)))
+         (nsum (map (fun t => cd_value (out1 t)) (txs_for_pool (List.filter (is_deposit_request s2) (sorted_txs s2)) k1))) = Ok (p'', m) ->
+       p_liqs (pool_at s2 k1) + m < U128) ->
+  (s_height s - TIP_909_HEIGHT) / 1000000 < 128 ->
+  (forall s1 sm, preseal_melmint SO s = Ok s1 -> get_pool s1 MS = Some sm -> s_fee_pool s + p_lefts sm + s_tips s < U128) ->
+  forall a, exists s', seal SO s a = Ok s'.
+Proof. exact seal_total_from_born. Qed.
+Print Assumptions C09_seal_total_from_genesis.
+(* non-vacuity: the starting state and the batch of STF/Proofs/Witness5.v *)
+Theorem C09_from_genesis_witness :
+  Good2 w_state /\ (forall k, builtin k -> BornBacked w_K3 w_oracle k w_state) /\
+  hist_all w_oracle (builtins_step_ok w_K3 w_oracle) w_state [HBatch w_header w_batch].
+Proof. exact w_total_from_born. Qed.
+Print Assumptions C09_from_genesis_witness.
